@@ -68,6 +68,26 @@ def run_harness(h: Harness, quick_s: float = 3.0):
   """explore + first solver pass; -> (report, hard obligations [(index, smt2, expect)])"""
   results, obs, errors, dt = _explore_harness(h)
   verdicts, hard = solve.quick_pass(obs, quick_s) if obs else ([], [])
+  if hard:
+    # quantified (heap) obligations that are not discharged quickly: look for a finite counter-example first
+    import z3
+    from . import finite
+    still = []
+    for i, smt2, expect in hard:
+      ob = obs[i]
+      if expect == "unsat" and any(z3.is_quantifier(c) for c in ob.pc):
+        try:
+          st, model = finite.refute(ob.pc, ob.goal)
+        except Exception as e:   # the counter-example search is best effort; failure leaves the obligation undecided
+          st, model = "unknown", {"error": repr(e)}
+        if st == "sat":
+          v = verdicts[i]
+          v.status, v.backend, v.model = "refuted", "z3-5.1/finite-universe", model
+          v.reason += "; finite universe: sat"
+          continue
+        verdicts[i].reason += f"; finite universe: {st}"
+      still.append((i, smt2, expect))
+    hard = still
   rep = HarnessReport(
     name=h.name, paths=len(results), ok_paths=sum(r.outcome == "ok" for r in results),
     aborted=sum(r.outcome == "abort" for r in results),
